@@ -271,6 +271,8 @@ pub fn gen(rng: &mut Rng, focus: Focus) -> ClientScn {
     }
     let subscriber = match focus {
         Focus::Extreme => rng.below(3) as u8,
+        // a log-only (formatting) subscriber: spans are enabled but not backed by OpenTelemetry
+        Focus::Trace => *rng.pick(&[0u8, 0, 1]),
         _ => 0,
     };
     let long = focus == Focus::Extreme && rng.chance(250);
@@ -957,7 +959,7 @@ pub fn check(scn: &ClientScn, log: &[Ev], horizon_reached: bool, sim: &Sim) -> V
                             c.id = Some(*id);
                             c.r_send = Some((e.seq, e.t, ok));
                             c.r_span = *span;
-                            if scn.subscriber == 0 {
+                            if scn.subscriber != 2 {
                                 if *trace != c.trace {
                                     v.push(viol("C18", "trace-id-changed", &[], format!("call {tag}: sent {trace:x}, caller supplied {:x}", c.trace)));
                                 }
